@@ -452,7 +452,13 @@ fn parent_elem_from_path(path: &str) -> Result<(&str, &str), Error> {
 
 fn build_disclosure(claims: &mut Value, disclosable_claim: &str) -> Result<Disclosure, Error> {
     let (parent_ptr, elem_ptr) = parent_elem_from_path(disclosable_claim)?;
-    let key = elem_ptr.trim_start_matches('/');
+    // the last reference token is unescaped like the ones before it (RFC 6901: "~1" is '/',
+    // "~0" is '~'), so that a member whose name contains '/' or '~' can be addressed as well
+    let key = elem_ptr
+        .trim_start_matches('/')
+        .replace("~1", "/")
+        .replace("~0", "~");
+    let key = key.as_str();
 
     let parent = claims
         .pointer_mut(parent_ptr)
